@@ -32,13 +32,13 @@ func (p *c15) Draw(t *rapid.T, tier string) *runner.Scenario {
 	lim := smallLimits(tier)
 	lim.NoCustom = true
 	wl := gen.Workload(t, lim)
-	mode := pick(t, "mode", "lexer", "lexer_crc", "scan", "indexed0", "indexed1", "indexed2", "info", "random_access")
+	mode := pick(t, "mode", "lexer", "lexer_crc", "lexer_seek", "scan", "indexed0", "indexed1", "indexed2", "info", "random_access")
 	if mode[0] == 'i' && mode != "info" {
 		lim.ForceChunked = true
 		lim.ForceIndexed = true
 	}
 	cfg := gen.Cfg(t, lim)
-	if mode != "lexer" && mode != "lexer_crc" {
+	if mode != "lexer" && mode != "lexer_crc" && mode != "lexer_seek" {
 		cfg.SkipMagic = false
 	}
 	if mode[0] == 'i' && mode != "info" && cfg.ChunkSize == 0 {
@@ -175,7 +175,7 @@ func (p *c15) Check(sc *runner.Scenario, st *runner.Stats, pin string) *runner.V
 		}
 	}
 	// (c) every seek call
-	if mode[0] == 'i' || mode == "random_access" {
+	if mode[0] == 'i' || mode == "random_access" || mode == "lexer_seek" {
 		for k := 0; k < full.srcStats.Seeks; k++ {
 			for _, sticky := range []bool{true, false} {
 				f := scen.Fault{Kind: "seek_err", Call: k, Sticky: sticky}
